@@ -86,8 +86,11 @@ def make_argv(vec, fx, rundir):
             src = "/dev/null"
         elif inn == "fifo":  # a named pipe that a writer fills with the plaintext and closes
             src = os.path.join(rundir, "in.fifo")
-            os.mkfifo(src)
-            info["fifo_data"] = fx.plain
+            try:
+                os.mkfifo(src)
+                info["fifo_data"] = fx.plain
+            except OSError:  # no FIFOs on this file system: fall back to a regular file (the vector is then a duplicate of "file")
+                open(src, "wb").write(fx.plain)
         else:
             src = {"file": fx.f, "missing": os.path.join(fx.root, "no-such-file"), "valid": fx.valid, "tampered": fx.tampered, "empty": fx.empty}[inn]
         # work on a private copy so that default output names land in the run directory
